@@ -124,6 +124,7 @@ def evaluate(ctx, cases):
         # full rule list) and printer with the configured spellings
         for env, texts, compiled in batches.values():
             lexcorr.run_texts(ctx, env, texts, label="lex.raw(custom spellings)")
+            lexcorr.run_compile(ctx, env, texts, label="lex.compile(custom spellings)")
             lexcorr.run_queries(ctx, env, compiled)
 
 
